@@ -448,8 +448,28 @@ fn lexical_c14(rep: &mut Report, rng: &mut Rng, o: &Opts) {
             Ok(x) => x,
             Err(_) => continue,
         };
+        // hand-built variants the parser cannot produce from formatter output: repeated (adjacent) components
+        // in sets and compounds -- the lexical model does not interpret them, extraction returns them as stored
+        let lx = if i % 4 == 3 {
+            let dup = |mut terms: Vec<LTerm>| {
+                if let Some(first) = terms.first().cloned() {
+                    terms.insert(0, first);
+                }
+                if let Some(last) = terms.last().cloned() {
+                    terms.push(last);
+                }
+                terms
+            };
+            match lx {
+                LTerm::Set { left_bracket, terms, right_bracket } => LTerm::Set { left_bracket, terms: dup(terms), right_bracket },
+                LTerm::Compound { connecter, terms } => LTerm::Compound { connecter, terms: dup(terms) },
+                other => LTerm::Set { left_bracket: "{".into(), terms: vec![other.clone(), other.clone(), other], right_bracket: "}".into() },
+            }
+        } else {
+            lx
+        };
         rep.evaluations += 1;
-        rep.hist.add("lexical");
+        rep.hist.add(if i % 4 == 3 { "lexical-with-duplicates" } else { "lexical" });
         let stored: Vec<LTerm> = match &lx {
             LTerm::Atom { .. } => vec![lx.clone()],
             LTerm::Compound { terms, .. } | LTerm::Set { terms, .. } => terms.clone(),
